@@ -29,7 +29,7 @@ impl Check for C15 {
     fn cases(&self, tier: Tier) -> u64 {
         match tier {
             Tier::Quick => 900,
-            Tier::Thorough => 3000,
+            Tier::Thorough => 6000,
         }
     }
     fn langs(&self) -> Vec<&'static str> {
